@@ -756,6 +756,17 @@ func Warn(format string, args ...any) {
 // AppendDoc appends text after formatting and converting _ and __ either to
 // ANSI underline and bold or is not ANSI removing them.
 func AppendDoc(b []byte, text string, indent, right int, ansi bool, firstIndent ...int) []byte {
+	return appendDoc(b, text, indent, right, ansi, false, firstIndent...)
+}
+
+// AppendCodeDoc appends the text of a documentation string that is part of
+// code, formatted like AppendDoc without ANSI does but as the content of a
+// string that will be read again, double quotes and backslashes are escaped.
+func AppendCodeDoc(b []byte, text string, indent, right int, firstIndent ...int) []byte {
+	return appendDoc(b, text, indent, right, false, true, firstIndent...)
+}
+
+func appendDoc(b []byte, text string, indent, right int, ansi, code bool, firstIndent ...int) []byte {
 	var (
 		lastSpace int
 		spaceCol  int
@@ -829,6 +840,10 @@ func AppendDoc(b []byte, text string, indent, right int, ansi bool, firstIndent 
 			}
 		default:
 			ret = false
+			if code && (c == '"' || c == '\\') {
+				b = append(b, '\\')
+				col++
+			}
 			b = append(b, c)
 			col++
 		}
